@@ -412,11 +412,45 @@ def source_literals(repo=None):
             except Exception:
                 continue
 
+            def fold(n):
+                # value of a constant arithmetic expression (2 ** 16, 64 * 1024, 1 << 20, -5), else None
+                if isinstance(n, ast.Constant) and isinstance(n.value, (int, float)) and not isinstance(n.value, bool):
+                    return n.value
+                if isinstance(n, ast.UnaryOp) and isinstance(n.op, (ast.USub, ast.UAdd)):
+                    v = fold(n.operand)
+                    return None if v is None else (-v if isinstance(n.op, ast.USub) else v)
+                if isinstance(n, ast.BinOp):
+                    a, b = fold(n.left), fold(n.right)
+                    if a is None or b is None:
+                        return None
+                    try:
+                        if isinstance(n.op, ast.Pow):
+                            return a ** b if abs(b) <= 64 and abs(a) <= 10 ** 6 else None
+                        if isinstance(n.op, ast.Mult):
+                            return a * b
+                        if isinstance(n.op, ast.Add):
+                            return a + b
+                        if isinstance(n.op, ast.Sub):
+                            return a - b
+                        if isinstance(n.op, ast.Div):
+                            return a / b
+                        if isinstance(n.op, ast.FloorDiv):
+                            return a // b
+                        if isinstance(n.op, ast.LShift) and isinstance(a, int) and isinstance(b, int) and 0 <= b <= 64:
+                            return a << b
+                    except Exception:  # noqa
+                        return None
+                return None
+
             def lits(node):
                 vals = []
                 for n in ast.walk(node):
                     if isinstance(n, ast.Constant) and isinstance(n.value, (int, float)) and not isinstance(n.value, bool):
                         vals.append(n.value)
+                    elif isinstance(n, ast.BinOp):
+                        v = fold(n)     # the folded value of a constant expression counts as a literal too (2 ** 16 -> 65536)
+                        if v is not None and isinstance(v, (int, float)) and not isinstance(v, complex) and abs(v) < 1e300:
+                            vals.append(v)
                 return vals
 
             def visit(node, prefix):
